@@ -123,7 +123,7 @@ def run_history(h, ctx, farmer=None):
     if 'ds' in kind:
         f = sweeps.make_rec(sorted_sweep(sw), kind, as_xr=True, dims={n: ['i%d' % d for d in range(len(sh))] for n, sh, _ in kind['ds']})
     else:
-        f = sweeps.make_rec(sorted_sweep(sw), kind)
+        f = sweeps.make_rec(sorted_sweep(sw), kind, as_np=bool(h.get('np')))       # 'np': arrays come back as numpy arrays
     loc = os.path.join(d_abs, '.xyz-t')
     crop, obs = None, []
     sz = sweeps.sizes(sorted_sweep(sw))
